@@ -444,6 +444,7 @@ func EnumControl(thorough bool, f func(Case)) {
 var miscPrograms = []string{
 	`$1 > 1`, `/a/`, `!/a/`, `NR == 1, NR == 2`, `NR == 2, NR == 2 { print "r", $0 }`, `/1/, /5/ { print NR ":" $0 }`, `$1 == 3, 0`, `NR == 1, /nomatch/ { n++ } END { print n }`,
 	`BEGIN { print "b1" } BEGIN { print "b2" } END { print "e1" } END { print "e2" }`, `BEGIN { }`, `END { }`, `{ }`, `{}`, `END { print NR, $0, NF }`,
+	`{ { } }`, `{ ; }`, `$1 { { } { } }`, `NR == 1 { ; ; }`, `/a/ { if (0) ; }`, `{ { } } END { print NR }`,
 	`NR == 1 { print "one" } NR == 1 { print "again" } { print "all", NR }`,
 	`NR % 2`, `NF`, `$0`, `$2`, `"x"`, `""`, `0`, `1`, `u`, `$1 ~ "^[0-9]+$"`, `$1 ~ $2`, `x = NR`, `(NR == 2)`,
 	`{ print; print $0; print $1, $2; print $1 $2; print($1, $2) }`, `{ OFS = "-"; print $1, $2; $1 = $1; print }`, `BEGIN { ORS = "|"; print "a"; print "b", "c" }`,
@@ -516,7 +517,17 @@ func EnumPairs(thorough bool, f func(Case)) {
 			f(Case{Family: "pairs", Name: s1 + " ;; " + s2, Src: wrapScope("RULE", s1+"; "+s2)})
 		}
 	}
+	// all ordered triples of the record/array/getline statements most likely to interact
+	for _, s1 := range tripleStmts {
+		for _, s2 := range tripleStmts {
+			for _, s3 := range tripleStmts {
+				f(Case{Family: "pairs", Name: s1 + " ;; " + s2 + " ;; " + s3, Src: wrapScope("RULE", s1+"; "+s2+"; "+s3)})
+			}
+		}
+	}
 }
+
+var tripleStmts = []string{"$2 = x", "$i++", "NF = 2", "$0 = \"p q r\"", "a[k]++", "delete a[k]", "i++", "OFS = \"-\"", "$1 = $1", "sub(/b/, \"X\")", "split($0, a)", "getline", "getline $2 < \"pre\"", "x = $(-1)", "u = $(NF+1)", "FS = \",\""}
 
 // EnumC01 enumerates all families.
 func EnumC01(thorough bool, f func(Case)) {
